@@ -3,7 +3,7 @@
    `seesaw_grammar` is regenerated on every run from the runtime pyparsing element graph. *)
 From Coq Require Import List NArith.
 From DSD Require Import Base.Str Base.Errors Base.Val Model.Peg Model.DispatchPeg
-  Proofs.PegMono Proofs.PegStd Proofs.PegDoc Proofs.C13Base Proofs.C13Doc Proofs.C19Doc Proofs.C19Lex Proofs.C19Io.
+  Proofs.PegMono Proofs.PegStd Proofs.PegDoc Proofs.C13Base Proofs.C13Doc Proofs.C19Doc Proofs.C19Lex Proofs.C19Io Proofs.PegNum Proofs.C19Args Proofs.C19Stm Proofs.C19Rej.
 From DSDGen Require Import SeesawGrammar.
 Import ListNotations.
 
@@ -46,7 +46,7 @@ Print Assumptions C19_roundtrip_reporter_parse_string.
 (* a wire w[N, N|f] parses to its token tree wherever it stands *)
 Theorem C19_wire_parses : forall full x w r, wire_ok w -> std_pre ssw_ws x = wire_text w ++ r ->
   evals seesaw_nodes full 23 true (At x) (POk (At r) [wire_tree w]).
-Proof. exact sw_wire. Qed.
+Proof. exact (fun full x w r => sw_wire full true x w r). Qed.
 Print Assumptions C19_wire_parses.
 
 (* Round trip, INPUT(N | NAME) = w[N, N|f] *)
@@ -78,16 +78,50 @@ Theorem C19_statement_parse_string : forall b y E t,
 Proof. exact ssw_statement_parse. Qed.
 Print Assumptions C19_statement_parse_string.
 
+(* Round trips of the remaining statement kinds, each for all numbers, names, list lengths and
+   blanks around every token, before every statement end *)
+Theorem C19_roundtrip_output : forall x v y, ioname_ok x -> outval_ok v -> inp_layout_ok y ->
+  ssw_body_ok (out_render x v y) [out_tree x v].                       (* OUTPUT(..) = wire | Fluor[N] *)
+Proof. exact roundtrip_output. Qed.
+Print Assumptions C19_roundtrip_output.
+
+Theorem C19_roundtrip_seesaw : forall s, ss_ok s -> ssw_body_ok (ss_render s) [ss_tree s].
+Proof. exact roundtrip_seesaw. Qed.                                     (* seesaw[N, {N,..}, {N|f,..}] *)
+Print Assumptions C19_roundtrip_seesaw.
+
+(* conc[TARGET, NUMBER*c], TARGET a wire, a gate g[wire,N] / g[N,wire], a threshold th[wire,N] / th[N,wire];
+   NUMBER in integer, decimal or scientific form *)
+Theorem C19_roundtrip_conc : forall t q y, ctarget_ok t -> sconc_ok q -> cc_layout_ok y ->
+  ssw_body_ok (cc_render t q y) [cc_tree t q].
+Proof. exact roundtrip_conc. Qed.
+Print Assumptions C19_roundtrip_conc.
+
+Theorem C19_roundtrip_inputfanout : forall s, if_ok s -> ssw_body_ok (if_render s) [if_tree s].
+Proof. exact roundtrip_inputfanout. Qed.
+Print Assumptions C19_roundtrip_inputfanout.
+
+Theorem C19_roundtrip_seesawOR_seesawAND : forall s, lg_ok s -> ssw_body_ok (lg_render s) [lg_tree s].
+Proof. exact roundtrip_logic_gate. Qed.
+Print Assumptions C19_roundtrip_seesawOR_seesawAND.
+
+(* Rejections: a concentration that does not start with a digit (negative, missing) *)
+Theorem C19_reject_negative_concentration : forall w y rest pls b,
+  wire_ok w -> cc_layout_ok y -> Forall ssw_blank_line pls -> blanks ssw_ws b ->
+  no_tab (concat pls ++ b ++ badconc_text w y (45%N :: rest)) ->
+  exists f0, forall f, f0 <= f ->
+    parse_seesaw_fuel f (concat pls ++ b ++ badconc_text w y (45%N :: rest)) = err eParse.
+Proof. exact reject_negative_concentration. Qed.
+Print Assumptions C19_reject_negative_concentration.
+
+(* ... reporter with a first / second argument that is not a number, with one argument, with three *)
+Theorem C19_reject_reporter_arguments : forall f y junk pls b,
+  repfault_ok f junk -> rep_layout_ok y -> Forall ssw_blank_line pls -> blanks ssw_ws b ->
+  no_tab (concat pls ++ b ++ repfault_text f y junk) ->
+  exists f0, forall fu, f0 <= fu -> parse_seesaw_fuel fu (concat pls ++ b ++ repfault_text f y junk) = err eParse.
+Proof. exact reject_reporter_arguments. Qed.
+Print Assumptions C19_reject_reporter_arguments.
+
 (* ---- full statements not yet proved (listed under `partial` in the evidence) ---- *)
-(* OUTPUT(N | NAME) = Fluor[N] (and = wire): rendering as for INPUT *)
-Definition out_fluor_render (x : ioname) (n : num) (y : inp_layout) (b6 b7 b8 : pstr) : pstr :=
-  [79; 85; 84; 80; 85; 84]%N ++ ip_b1 y ++ 40%N :: ip_b2 y ++ ioname_text x ++ ip_b3 y ++ 41%N :: ip_b4 y ++ 61%N :: ip_b5 y ++
-  kw_fluor ++ b6 ++ 91%N :: b7 ++ num_text n ++ b8 ++ [93%N].
-Definition C19_roundtrip_output_fluor_full : Prop := forall x n y b6 b7 b8,
-  ioname_ok x -> num_ok n -> inp_layout_ok y -> blanks ssw_ws b6 -> blanks ssw_ws b7 -> blanks ssw_ws b8 ->
-  ssw_body_ok (out_fluor_render x n y b6 b7 b8)
-    [TList [TStr [79; 85; 84; 80; 85; 84]%N; TList [TStr (ioname_text x)]; TList [TStr kw_fluor; TStr (num_text n)]]].
-(* the statement kinds seesaw[..], conc[wire|gate|threshold, x*c], inputfanout, seesawOR, seesawAND have no Coq
-   rendering yet; their round trip is checked on the implementation and in the model/implementation
-   correspondence only (harness/ssw_texts.py is the renderer) *)
+(* rejection of a wrong number / kind of arguments for the statement kinds other than reporter and of a bad
+   concentration on gate / threshold targets: checked on the implementation and in the correspondence *)
 Definition C19_default_fuel_suffices_full : Prop := forall text, parse_seesaw text <> err eFuel.
